@@ -19,7 +19,7 @@ from concurrent.futures import ThreadPoolExecutor
 from harness import colang2, progs2, tlc, v2corpus
 
 SPEC_DIR = "/verif/specs/colang2"
-FRAGMENT_FEATURES = {"when", "if", "while", "groups", "return", "abort", "vars", "start", "actions", "refs", "activate", "priority", "loop", "params", "endflow"}
+FRAGMENT_FEATURES = {"when", "if", "while", "groups", "return", "abort", "vars", "start", "actions", "refs", "activate", "priority", "loop", "params", "endflow", "globals"}
 INVARIANTS = ("QueueEmpty", "Parked", "IndexIsScan", "DoneNoHeads",      # C09
               "L1S", "L2S",                                                # C06 (keeper, action life-cycle monitor)
               "C05S",                                                      # C05 (every conflict resolution of the call: winner not beaten, identical co-win, rest stopped)
